@@ -117,6 +117,7 @@ def _extension_permutations(ctx):
     for k in range(3):
         ref = None
         bad = None
+        flag_bad = None
         for operm in itertools.permutations(names):
             sl0, sh0, cons0 = system(k)
             for cperm in itertools.permutations(range(len(cons0))):
@@ -130,11 +131,16 @@ def _extension_permutations(ctx):
                 except Raised as r:
                     raise AnalysisError(f"_extend_to_inf_if_possible raises: {r}")
                 flat = tuple((nm, ax, s, None if sl2[nm][ax][s] is None else to_rat(sl2[nm][ax][s]).fmt()) for nm in names for ax in range(3) for s in (0, 1)) + (res,)
+                sl_ref, _, _ = system(k)
+                wrote = any((sl_ref[nm][ax][s] is None) != (sl2[nm][ax][s] is None) for nm in names for ax in range(3) for s in (0, 1))
+                if bool(res) is not wrote:
+                    flag_bad = flag_bad or (operm, cperm, res, wrote)
                 n += 1
                 if ref is None:
                     ref = flat
                 elif flat != ref:
                     bad = bad or (operm, cperm, [x for x, y in zip(flat, ref) if x != y][:3])
+        ctx.ob("R27.2", f"_extend_to_inf_if_possible:system{k}:progress-flag", flag_bad is None, "the returned flag is true iff some slot was filled, whatever the order of objects and constraints", flag_bad, "flag == something written")
         ctx.ob("R27.2", f"_extend_to_inf_if_possible:system{k}", bad is None, "identical slices and progress flag under every permutation of the object map and of the constraint list", bad, "permutation-invariant")
     ctx.note(f"R27.2: {n} interpreted permutations")
 
@@ -144,7 +150,9 @@ def run(ctx):
     c26._position_constraint(ctx)
     c26._extension_constraint(ctx)
     c26._coordinate_constraints(ctx)
+    c26._progress_flags(ctx)
     c26._bookkeeping(ctx)
+    c26._exit_rule(ctx, "R27.3")
     _structure(ctx)
     _extension_permutations(ctx)
     ctx.require_count("C27", len(ctx.obligations), 300)
